@@ -120,6 +120,8 @@ def gen_cases(ctx):
         es = [b'{"jsonrpc":"2.0","id":%d,"method":"%s","params":["%s"]}' % (k + 1, rng.choice([b"echo", b"aecho", b"becho"]), b"p" * z) for k, z in enumerate(sizes)]
         if rng.random() < 0.3:
             es.insert(rng.randrange(len(es) + 1), b'{"jsonrpc":"2.0","method":"echo","params":[0]}')
+        if rng.random() < 0.3:
+            es.insert(rng.randrange(len(es) + 1), rng.choice([b"1", b'{"id":7,"method":1}', b'{"id":"q","foo":true}']))
         approx = [z + 45 for z in sizes]
         pos = rng.randrange(1, n + 1)
         limit = max(max(approx) + 60, sum(approx[:pos]) + rng.choice([-20, 5, 60, 125, 200]))
@@ -133,6 +135,11 @@ def gen_cases(ctx):
             cases.append(("http", c, m, tag))
             if k in ws_idx:
                 cases.append(("ws", c, m, tag))
+    # only invalid entries under a small response limit
+    for n in (1, 2, 3, 6, 20):
+        ents = [rng.choice([b"1", b'{"id":7,"method":1}', b'{"id":"q","foo":true}']) for _ in range(n)]
+        for limit in (50, 79, 80, 81, 85 * n - 30, 85 * n + 40):
+            limited.append((b"[" + b",".join(ents) + b"]", "response-limit", "u+r%d" % max(limit, 1)))
     for m, tag, c in limited:
         cases.append(("http", c, m, tag))
         cases.append(("ws", c, m, tag))
